@@ -67,7 +67,7 @@ func init() {
 		Run: runC29,
 		Require: []string{"nodes_run", "proposals_registered", "registered:Normal", "registered:ELIP", "registered:CloseProposal", "registered:ChangeProposalOwner",
 			"transition:Registered->CRAgreed", "transition:CRAgreed->VoterAgreed", "transition:Registered->CRCanceled", "transition:CRAgreed->VoterCanceled",
-			"transition:VoterAgreed->Finished", "transition:VoterAgreed->Terminated", "terminated_by_close_proposal", "owner_changed_by_tracking", "owner_changed_by_proposal",
+			"transition:VoterAgreed->Finished", "transition:VoterAgreed->Terminated", "terminated_by_close_proposal", "close_proposal_passed_on_already_ended_target", "close_proposal_passed_on_already_ended_target:Terminated", "owner_changed_by_tracking", "owner_changed_by_proposal",
 			"withdraw_accepted", "real_withdraw_accepted", "real_withdraw_output_exact", "stage_approved:normal", "stage_approved:final", "proposals_fully_paid_out",
 			"hostile_attempts", "hostile_rejected_mempool", "hostile_rejected_block", "hostile_attempts:withdraw-early", "hostile_attempts:withdraw-repeat", "hostile_attempts:withdraw-over",
 			"hostile_attempts:withdraw-unapproved-stage", "hostile_attempts:withdraw-non-owner", "hostile_attempts:withdraw-after-end", "hostile_attempts:two-withdraws-one-block",
@@ -133,6 +133,8 @@ type c29Flow struct {
 	votedBig   bool
 	filler     bool
 	lastStatus string
+	closer     *c29Flow // the CloseProposal registered against this proposal by an "XE" step
+	endKind    payload.CRCProposalTrackingType
 }
 
 type c29 struct {
@@ -343,7 +345,7 @@ func (s *c29) compare() {
 		}
 		s.c.Inc("compare_proposals")
 		diff := func(field, detail string) {
-			s.modelViol("model-diff:"+field, fmt.Sprintf("height %d proposal %s (%s, history %v): %s", s.synced, ph.String()[:16], p.Type.Name(), p.Trans, detail), p)
+			s.modelViol("model-diff:"+field+s.causeSuffix(), fmt.Sprintf("height %d proposal %s (%s, history %v): %s", s.synced, ph.String()[:16], p.Type.Name(), p.Trans, detail), p)
 			p.Tainted = true
 			s.m.CommitteeTainted = true
 		}
@@ -1175,7 +1177,19 @@ func (s *c29) plan(f *c29Flow) {
 	case 5:
 		add("CO", 0) // ChangeProposalOwner
 		add("F", f.budgets[len(f.budgets)-1].Stage)
+	case 6:
+		add("XE", 0) // CloseProposal, and the owner ends the proposal himself while the CloseProposal is in its public vote
 	default: // stays VoterAgreed until the term ends
+	}
+	if f.id%4 == 1 && !f.filler && (len(ops) == 0 || ops[len(ops)-1].kind != "XE") {
+		// regularly: cut the script short and end with the close-while-ending history
+		if len(ops) > 3 {
+			ops = ops[:3]
+		}
+		for len(ops) > 0 && (ops[len(ops)-1].kind == "F" || ops[len(ops)-1].kind == "T" || ops[len(ops)-1].kind == "X") {
+			ops = ops[:len(ops)-1]
+		}
+		add("XE", 0)
 	}
 	f.script = ops
 }
@@ -1282,6 +1296,24 @@ func (s *c29) tick(f *c29Flow) {
 		if f.target != nil {
 			return
 		}
+		if f.closer != nil && f.closer.mined && !f.done["end-during-close-vote"] {
+			if cs := s.nd.Committee.GetProposal(f.closer.hash); cs != nil && cs.Status.String() == c29CRAgreed && s.r.Intn(3) != 0 {
+				// the CloseProposal is in its public voting period: the owner terminates / finalizes the proposal himself
+				if owner := node.KeyByPub(ps.ProposalOwner); owner != nil {
+					if in, ok := s.take(owner); ok {
+						stage := uint8(0)
+						if f.endKind == payload.Finalized {
+							stage = f.budgets[len(f.budgets)-1].Stage
+						}
+						if s.submit("CRCProposalTracking:"+f.endKind.Name()+":during-close-vote", in, s.trackingTx(in, owner, s.sec, f, f.endKind, stage, nil)) {
+							f.done["end-during-close-vote"] = true
+							s.c.Inc("target_ended_during_close_proposal_vote")
+						}
+					}
+				}
+				return
+			}
+		}
 		if f.pc >= len(f.script) {
 			if s.r.Intn(4) == 0 {
 				s.legitWithdraw(f)
@@ -1353,7 +1385,11 @@ func (s *c29) exec(f *c29Flow, op c29Op, ownerPub []byte) {
 			no = s.attacker
 		}
 		honestTracking(payload.ChangeOwner, 0, no)
-	case "X", "CO":
+	case "X", "CO", "XE":
+		if op.kind == "XE" && s.nd.Height()+1 < s.nd.Cfg.CRConfiguration.CRCProposalV1Height {
+			f.pc-- // special proposals are not allowed yet: wait
+			return
+		}
 		if s.nd.Height()+1 < s.nd.Cfg.CRConfiguration.CRCProposalV1Height || s.nd.Height()+1 >= s.registerUntil {
 			return
 		}
@@ -1368,7 +1404,14 @@ func (s *c29) exec(f *c29Flow, op c29Op, ownerPub []byte) {
 		}
 		sp.target = f
 		sp.owner = owner
-		s.register(sp)
+		if s.register(sp) && op.kind == "XE" {
+			f.closer = sp
+			f.endKind = payload.Terminated
+			if s.r.Intn(3) == 0 {
+				f.endKind = payload.Finalized
+			}
+			s.c.Inc("close_then_end_histories_started")
+		}
 	case "H:two-withdraws-one-block":
 		s.hostileTwoWithdrawsOneBlock(f)
 	default:
@@ -1745,7 +1788,12 @@ func (s *c29) run(funding common.Fixed64, duty uint32) {
 	s.whale = node.Key(node.KeyVoter + 40)
 	s.m = newC29Model(c29Params{CRVotingPeriod: nd.Cfg.CRConfiguration.ProposalCRVotingPeriod, PublicVotingPeriod: nd.Cfg.CRConfiguration.ProposalPublicVotingPeriod,
 		AgreementCount: nd.Cfg.CRConfiguration.CRAgreementCount, RealFee: s.realFee, Expenses: s.expenses, Assets: *nd.Cfg.CRConfiguration.CRAssetsProgramHash,
-		RejectSure: node.ELA(3500000), AgreeSure: node.ELA(3000000)}, s.modelViol, func(n string) { c.Inc(n) })
+		RejectSure: node.ELA(3500000), AgreeSure: node.ELA(3000000)}, s.modelViol, func(n string) {
+		c.Inc(n)
+		if n == "close_proposal_passed_on_already_ended_target" && (s.cause == "honest-flow" || s.cause == "") {
+			s.cause = "close-proposal-on-ended-target"
+		}
+	})
 
 	// the model follows the chain from genesis; the committee was elected during bootstrap
 	for h := uint32(0); h <= nd.Height(); h++ {
